@@ -496,10 +496,9 @@ def check(prop_name: str, tier: str, master: int, n_runs=None, out_evidence=True
             "distinct_run_digests": len(agg["digests"]),
             "distinct_reference_states": len(agg["states"]),
             "state_measure": getattr(prop, "STATE_MEASURE", ""),
-            "inconclusive_runs": agg["inconclusive"],
+            "run_outcomes": {"inconclusive": agg["inconclusive"], "with_violations": n_violating_runs},
             "faults_and_probes_fired": dict(sorted(agg["counters"].items())),
             "components": prop.COMPONENTS,
-            "violating_runs": n_violating_runs,
             "violation_reports": replays,
             "known_findings_hit": dict(known_hits),
             "pre_check": extra.get("coverage", {}),
